@@ -488,7 +488,7 @@ def judge_batch(trace_lines, strict, workdir, name):
 # Scale batch: the same judge at scopes far beyond what TLC can enumerate.  A handful of executions
 # per check: big capacities, long histories on a few hot keys, mass expiry, long ranges.
 
-DETERMINISTIC_RANGE_KINDS = ["lru", "mru", "fifo", "lfu", "lfuda", "utmap", "utset"]
+DETERMINISTIC_RANGE_KINDS = ["lru", "mru", "fifo", "utmap", "utset"]   # a victim the judge need not search for
 
 
 def _scale_cfg(rng, kind, cap, keys, ttl=0, tick=3):
@@ -508,10 +508,13 @@ def scale_big_capacity(rng, kind, cap):
         lines.append("ins %d %d 3 %d" % (k, rng.randint(1, 90), ttl))
     if kind == "lfuda":
         lines.append("tick 20")     # every entry is idle for longer than the aging tick at the first eviction
+    fresh = order[cap:]
     for i in range(40):
         r = rng.random()
         k = rng.randint(1, keys)
-        if r < 0.6:
+        if i % 5 == 0 and fresh:
+            lines.append("ins %d %d 3 %d" % (fresh.pop(), rng.randint(1, 90), ttl))     # a new key: an eviction
+        elif r < 0.6:
             lines.append("ins %d %d 3 %d" % (k, rng.randint(1, 90), ttl))
         elif r < 0.8:
             lines.append("find %d %d" % (k, rng.choice([0, 1]) if kind in PEEK_KINDS else 0))
@@ -552,42 +555,47 @@ def scale_hot_keys(rng, kind, nops=1400):
 
 
 def scale_mass_expiry(rng, kind, n):
-    """n entries written with one short ttl, the clock moves past it, then single calls"""
+    """n entries written with one short ttl in two waves, the clock moves past the first wave's (or both
+    waves') deadline, then single calls - first of all a lookup of the entry at the far end of the
+    expiry order, so that a clean-up that stops early is seen by the call itself"""
     keys = n + 4
     ttl = 3
     c = _scale_cfg(rng, kind, n + 2, keys, ttl=ttl)
     lines = [cfg_line(c)]
-    for k in range(1, n + 1):
+    n1 = (2 * n) // 3
+    for k in range(1, n1 + 1):
         lines.append("ins %d %d 3 %d" % (k, 1 if kind == "utset" else rng.randint(1, 90), ttl))
-    lines.append("ins %d 5 3 %d" % (n + 1, 50))
-    if kind == "utlru":
-        lines = lines[:-1] + ["uttl 50", "ins %d 5 3 0" % (n + 1), "uttl %d" % ttl]
-    lines.append("tick %d" % (R * ttl + rng.choice([0, 1, 2])))
-    tail = rng.choice([["find %d 0" % rng.randint(1, n), "clean"], ["clean", "clean"],
-                       ["ins %d 5 3 %d" % (n + 2, ttl), "find %d 0" % rng.randint(1, n), "clean"],
-                       ["era %d" % rng.randint(1, n), "find %d 0" % rng.randint(1, n), "clean"]])
-    lines += tail + ["find %d 0" % (n + 1), "obs", "destroy"]
+    lines.append("tick %d" % (R * ttl - 4))
+    for k in range(n1 + 1, n + 1):
+        lines.append("ins %d %d 3 %d" % (k, 1 if kind == "utset" else rng.randint(1, 90), ttl))
+    both = rng.random() < 0.5
+    lines.append("tick %d" % ((R * ttl) if both else 4 + rng.choice([0, 1])))
+    last_dead = n if both else n1
+    tail = ["find %d 0" % last_dead, "find %d 0" % n, "findr 0 0 3 %d %d %d" % (last_dead, 1, n)]
+    tail += rng.choice([["clean"], ["ins %d 5 3 %d" % (n + 2, ttl), "clean"], ["era %d" % rng.randint(1, n), "clean"]])
+    lines += tail + ["find %d 0" % n, "obs", "clean", "destroy"]
     return lines
 
 
-def scale_long_ranges(rng, kind, cap=80):
-    keys = cap + 10
+def scale_long_ranges(rng, kind, cap=40):
+    """ranges of 20-70 elements with duplicates, bigger than the capacity, every allow mode and argument
+    container; then enough fresh keys to reveal the order the ranges left behind"""
+    keys = 100
     c = _scale_cfg(rng, kind, cap, keys, ttl=4000)
     lines = [cfg_line(c)]
-    for _ in range(6):
-        m = rng.choice([20, 35, 70])
-        ks = [rng.randint(1, keys) for _i in range(m)]
-        var = rng.choice([0, 0, 1, 3]) if kind == "fifo" else rng.choice([0, 0, 1])
-        a = rng.choice([3, 3, 1, 2])
+    plan = [(3, 0, 70), (1, 0, 35), (2, 0, 70), (3, 1, 35), (1, 0, 70), (3, 3 if kind == "fifo" else 0, 35)]
+    rng.shuffle(plan)
+    for a, var, m in plan:
+        ks = [rng.randint(1, 80) for _i in range(m)]
         lines.append("insr %d %d %d %s" % (a, var, m, " ".join("%d %d 4000" % (k, 1 if kind == "utset" else rng.randint(1, 90))
                                                             for k in ks)))
-        ks2 = [rng.randint(1, keys) for _i in range(rng.choice([20, 40]))]
+        ks2 = [rng.randint(1, 80) for _i in range(rng.choice([20, 40]))]
         p = rng.choice([0, 1]) if kind in PEEK_KINDS else 0
         lines.append("%s %d %d %d %s" % (rng.choice(["findr", "findf"]), p, 0, len(ks2), " ".join(map(str, ks2))))
-        if rng.random() < 0.5:
-            ks3 = [rng.randint(1, keys) for _i in range(20)]
+        if rng.random() < 0.4:
+            ks3 = [rng.randint(1, 80) for _i in range(20)]
             lines.append("erar 0 %d %s" % (len(ks3), " ".join(map(str, ks3))))
-    for k in range(keys, keys - 12, -1):
+    for k in range(81, 101):
         lines.append("ins %d 3 3 4000" % k)
     lines.append("destroy")
     return lines
@@ -619,7 +627,8 @@ def scale_batch(rng, kinds, tier):
                 out.append(scale_big_capacity(rng, kind, rng.choice([130, 140] if tier == "quick" else [130, 200, 260])))
             out.append(scale_hot_keys(rng, kind, 1400 if tier == "quick" else 3000))
             if kind in TTL_KINDS:
-                out.append(scale_mass_expiry(rng, kind, rng.choice([140] if tier == "quick" else [140, 270])))
+                big = 270 if kind in ("utmap", "utset") else 140      # beyond any batching threshold up to 256
+                out.append(scale_mass_expiry(rng, kind, big if tier == "quick" else rng.choice([140, 270, 300])))
             if kind in DETERMINISTIC_RANGE_KINDS:
                 out.append(scale_long_ranges(rng, kind))
             if kind in ("utlru", "utmap"):
